@@ -621,6 +621,10 @@ def split_multiple_persons_names(names):
         if char == "}":
             if bracelevel:
                 bracelevel -= 1
+            elif step == NEXT_WORD:
+                # An unmatched closing brace is a regular character: it starts the next name.
+                spans[-1].append(possible_end)
+                spans.append([pos - 1])
             step = START_WHITESPACE
             continue
 
